@@ -294,6 +294,8 @@ func c09W1(w *World, r *Report, fn *ssa.Function, g *ssa.Go, key string) {
 		problems = append(problems, "the body has no select on the done channel")
 	}
 
+	conditionalClose := ""
+
 	// in the spawner: a Defer that closes done, unavoidable from the go statement to any return
 	closesDone := func(in ssa.Instruction) bool {
 		d, ok := in.(*ssa.Defer)
@@ -312,13 +314,38 @@ func c09W1(w *World, r *Report, fn *ssa.Function, g *ssa.Go, key string) {
 
 		found := false
 
-		allInstrs(cf, func(ci ssa.Instruction) {
+		isClose := func(ci ssa.Instruction) bool {
 			if c, ok := ci.(*ssa.Call); ok {
 				if b, isB := c.Call.Value.(*ssa.Builtin); isB && b.Name() == "close" && len(c.Call.Args) == 1 && c09ChanIs(c.Call.Args[0], "done") {
-					found = true
+					return true
 				}
 			}
+
+			return false
+		}
+
+		allInstrs(cf, func(ci ssa.Instruction) {
+			if isClose(ci) {
+				found = true
+			}
 		})
+
+		// the deferred function closes the channel on every one of its own paths: an
+		// early return inside it keeps the goroutine alive on exactly the exits it skips
+		if found {
+			if skip := pathFromEntryAvoiding(cf, nil, isClose, func(ci ssa.Instruction) bool {
+				_, isRet := ci.(*ssa.Return)
+
+				return isRet
+			}); skip != nil {
+				conditionalClose = w.pos(skip.Pos())
+				if !skip.Pos().IsValid() {
+					conditionalClose = w.pos(cf.Pos())
+				}
+
+				return false
+			}
+		}
 
 		return found
 	}
@@ -337,7 +364,9 @@ func c09W1(w *World, r *Report, fn *ssa.Function, g *ssa.Go, key string) {
 
 			return isRet
 		})
-		if exit != nil {
+		if exit != nil && conditionalClose != "" {
+			problems = append(problems, "the deferred function that closes done can return without closing it (path ending at "+conditionalClose+"): on the exits where it does, the goroutine, its context and its signal registration stay behind")
+		} else if exit != nil {
 			problems = append(problems, "the return at "+w.pos(exit.Pos())+" is reachable from the go statement without a deferred close(done): an exit on that path (or a panic anywhere after the go) leaves the goroutine running")
 		}
 	}
